@@ -2357,6 +2357,9 @@ impl Compiler {
                 dst: result_reg,
                 args_array: args_reg,
             });
+            func_compiler
+                .builder
+                .emit(Op::AdoptSuperResult { src: result_reg });
 
             func_compiler.builder.free_register(result_reg);
             func_compiler.builder.free_register(args_reg);
